@@ -666,3 +666,74 @@ func init() {
 		return out
 	})
 }
+
+// ---- hashing into a digest (C18: which fields a signature hash covers) -----------------------
+
+const maxDigestToks = 8
+
+// tokList: the first n tokens of stream id as a cons-list term (n a Go-side constant).
+func (v *FnVerifier) tokListSort() {
+	v.streamKeys()
+	v.smt.declSortRaw("TokList", "(declare-datatypes ((TokList 0)) (((tl.nil) (tl.cons (tl.head Tok) (tl.tail TokList)))))")
+}
+
+func (v *FnVerifier) digestFuns() (sumBlob, sum256, hash32 string) {
+	v.tokListSort()
+	sumBlob = v.smt.declareFun("uf!sumBlob", []string{"TokList"}, "Int")
+	sum256 = v.smt.declareFun("uf!sum256", []string{"Int"}, "(Array Int Int)")
+	hash32 = v.smt.declareFun("uf!hash32Of", []string{"(Array Int Int)", "Int"}, v.smt.sortOf(v.eng.lookupType(pkgBitcoin, "Hash32")))
+	return
+}
+
+func init() {
+	reg("crypto/sha256.New", "a new hash state: an empty token stream (what is written to it is recorded token by token)", func(ms *ModSet, c *ssa.CallCommon) {
+		for _, k := range streamGhosts {
+			k.FreshOnly = true
+			ms.add(k)
+		}
+	}, func(fr *Frame, st *State, c *ssa.CallCommon, args []Val, res ssa.Value) Val {
+		v := fr.v
+		_, sn, sp := v.streamKeys()
+		r := v.newRef(st, "sha")
+		v.setHeap(st, sn, sto(v.heap(st, sn), r, "0"))
+		v.setHeap(st, sp, sto(v.heap(st, sp), r, "0"))
+		out := Val{T: fmt.Sprintf("(mk-iface %d %s)", v.typeTag(types.NewPointer(types.Typ[types.UnsafePointer])), r)}
+		fr.setResult(res, out)
+		return out
+	})
+	regInvoke("hash.Hash.Sum", fmt.Sprintf("Sum(nil) of a hash state: a 32-byte slice whose blob is an uninterpreted function of the list of tokens written (modelled for up to %d tokens, otherwise unconstrained)", maxDigestToks), func(ms *ModSet, c *ssa.CallCommon) {
+		k := kiElem(types.Typ[types.Uint8])
+		k.FreshOnly = true
+		ms.add(k)
+		ms.add(KeyInfo{Key: "GH!blob", Ghost: "(Array Int Int)", FreshOnly: true})
+	}, func(fr *Frame, st *State, c *ssa.CallCommon, args []Val, res ssa.Value) Val {
+		v := fr.v
+		id := "(i.val " + args[0].T + ")"
+		b := fr.term(st, c.Args[0])
+		stk, sn, _ := v.streamKeys()
+		sumBlob, _, _ := v.digestFuns()
+		n := sel(v.heap(st, sn), id)
+		toks := sel(v.heap(st, stk), id)
+		arr := v.newRef(st, "sum")
+		blob := v.smt.fresh("sum.blob", "Int")
+		for k := 0; k <= maxDigestToks; k++ {
+			l := "tl.nil"
+			for i := k - 1; i >= 0; i-- {
+				l = fmt.Sprintf("(tl.cons %s %s)", sel(toks, fmt.Sprint(i)), l)
+			}
+			v.smt.assert(implies(and(eq(n, fmt.Sprint(k)), eq("(s.len "+b+")", "0")), eq(blob, app(sumBlob, l))))
+		}
+		v.setHeap(st, v.blobKey(), sto(v.heap(st, v.blobKey()), arr, blob))
+		out := Val{T: fmt.Sprintf("(mk-slice %s 0 (+ 32 (s.len %s)) (+ 32 (s.len %s)))", arr, b, b)}
+		fr.setResult(res, out)
+		return out
+	})
+	reg("crypto/sha256.Sum256", "an uninterpreted function of the blob of its argument", nil, func(fr *Frame, st *State, c *ssa.CallCommon, args []Val, res ssa.Value) Val {
+		v := fr.v
+		b := fr.term(st, c.Args[0])
+		_, sum256, _ := v.digestFuns()
+		out := Val{T: app(sum256, sel(v.heap(st, v.blobKey()), "(s.arr "+b+")"))}
+		fr.setResult(res, out)
+		return out
+	})
+}
